@@ -5,7 +5,9 @@
 use crate::util::Hx;
 use serde::{Deserialize, Serialize};
 
-pub const DENOMS: [&str; 3] = ["uatom", "TOKEN", "eth"];
+/// the first three are what users start with; the others only appear through mints and transfers
+/// (an account can end up holding more than eight denominations)
+pub const DENOMS: [&str; 12] = ["uatom", "TOKEN", "eth", "aaa", "btc", "dot", "ibc/27394FB092D2ECCD56123C74F36E4C1F926001CEADA9CA97EA622B25F41E5EB2", "juno", "osmo", "sol", "ust", "zzz"];
 pub const N_USERS: usize = 4;
 
 /// index (modulo the number of existing contracts, in creation order); 255 = a valid address
